@@ -25,7 +25,13 @@ func buildBytes(b Batch, norm NormFn, mode uint32) ([]byte, error) {
 }
 
 func genAnyBatch(t *rapid.T, sc *Scenario, label string) (Batch, string) {
-	switch rapid.IntRange(0, 7).Draw(t, label+":kind") {
+	switch rapid.IntRange(0, 8).Draw(t, label+":kind") {
+	case 8:
+		if label != "target" { // a >1024-document batch with doc values as a predecessor (pooled coders get sized by it)
+			p := GenWide(t)
+			return p.Batch(sc), p.String()
+		}
+		fallthrough
 	case 6, 7:
 		b := manyTermsBatch(t, label)
 		return b, fmt.Sprintf("many-terms{%d docs x %d terms}", len(b), len(b[0].Fields[0].Terms))
